@@ -749,6 +749,30 @@ func (u *unit) transfer(fn *ssa.Function, ins ssa.Instruction) {
 			u.addAllTo(x, u.load(u.val(x.X), x.Type()))
 		}
 	case *ssa.Store:
+		// c := *k; c.f = fresh: a whole-struct copy into a fresh local whose field f is
+		// overwritten right afterwards (same block, before any other use of the
+		// local) does not leave the copied reference in f — a strong update of f
+		if al, ok := x.Addr.(*ssa.Alloc); ok {
+			if st, isSt := x.Val.Type().Underlying().(*types.Struct); isSt {
+				if killed := overwrittenFields(x, al); len(killed) > 0 {
+					val := u.val(x.Val)
+					why := direct(fn, x.Pos(), "store to "+Describe(x.Addr))
+					for l := range u.val(x.Addr) {
+						if !u.isFresh(l.root) || l.field >= 0 {
+							u.store(locset{l: {}}, val, u.a.HasRefs(x.Val.Type()), writtenType(x.Addr), why)
+							continue
+						}
+						for i := 0; i < st.NumFields(); i++ {
+							if killed[i] || !u.a.HasRefs(st.Field(i).Type()) {
+								continue
+							}
+							u.store(locset{loc{l.root, int16(i)}: {}}, val, true, "", why)
+						}
+					}
+					break
+				}
+			}
+		}
 		u.store(u.val(x.Addr), u.val(x.Val), u.a.HasRefs(x.Val.Type()), writtenType(x.Addr), direct(fn, x.Pos(), "store to "+Describe(x.Addr)))
 	case *ssa.MapUpdate:
 		why := direct(fn, x.Pos(), "map update of "+Describe(x.Map))
@@ -765,6 +789,56 @@ func (u *unit) transfer(fn *ssa.Function, ins ssa.Instruction) {
 	case *ssa.Go:
 		u.call(fn, x, nil)
 	}
+}
+
+// overwrittenFields: the fields of the local al that are stored to after the
+// whole-struct store st, in st's block, before any use of al other than taking
+// a field address that is only stored to.
+func overwrittenFields(st *ssa.Store, al *ssa.Alloc) map[int]bool {
+	killed := map[int]bool{}
+	instrs := st.Block().Instrs
+	start := -1
+	for i, ins := range instrs {
+		if ins == ssa.Instruction(st) {
+			start = i
+		}
+	}
+	if start < 0 {
+		return nil
+	}
+	pending := map[*ssa.FieldAddr]bool{}
+	for _, ins := range instrs[start+1:] {
+		if fa, ok := ins.(*ssa.FieldAddr); ok && fa.X == ssa.Value(al) {
+			onlyStores := true
+			for _, ref := range *fa.Referrers() {
+				if s2, isS := ref.(*ssa.Store); !isS || s2.Addr != ssa.Value(fa) {
+					onlyStores = false
+				}
+			}
+			if !onlyStores {
+				break
+			}
+			pending[fa] = true
+			continue
+		}
+		if s2, ok := ins.(*ssa.Store); ok {
+			if fa, isFA := s2.Addr.(*ssa.FieldAddr); isFA && pending[fa] {
+				killed[fa.Field] = true
+				continue
+			}
+		}
+		// any other instruction mentioning the local ends the window
+		uses := false
+		for _, op := range ins.Operands(nil) {
+			if *op == ssa.Value(al) {
+				uses = true
+			}
+		}
+		if uses {
+			break
+		}
+	}
+	return killed
 }
 
 // extract returns the pts of component idx of a tuple value.
